@@ -381,7 +381,13 @@ def run_buffers(spec, rec, lib):
             log.append(op)
             payload = bytes(buf) if op == "other_object_same_content" else buf
             ok = openpgp.verify(key.pub, bytes(buf), bytes.fromhex(ent["other_headers"]), bytes.fromhex(ent["signature"]))
+            before_buf, before_ent = bytes(buf), dict(ent)
             o = boundary.call(lib, A.verify_gpg_signature, ent, key.hex, payload)
+            if bytes(buf) != before_buf or ent != before_ent:
+                rec.violation("argument-mutation/verify_gpg_signature/caller-buffer-or-entry-changed",
+                              "the caller's payload buffer (%d -> %d bytes) or entry was modified by the verification" % (len(before_buf), len(buf)),
+                              {"kind": "buffers", "ops": list(log), "seed": key.seed.hex()})
+                break
             rec.case("buffers|%s|%s" % (op, ok))
             rec.count("buffer_history_calls")
             case = {"kind": "buffers", "ops": list(log), "seed": key.seed.hex()}
